@@ -234,6 +234,33 @@ def check_helper(case, ctx):
     if bool(a.value) != bool(b.value):
         raise Violation(base + "/differs", "%s -> %r but without the missing names -> %r"
                         % (case["with"], a.value, b.value))
+    if case["helper"] != "misc":
+        # the same call over the NEXT GENERATION of the record type (same name; the names missing above are fields now,
+        # and hold the text looked for), then over the first generation again: which names a record has is a matter of
+        # that record, whatever records of that name looked like before
+        for which, r2 in (("newer-generation", the_record_gen2()), ("older-generation-again", rec)):
+            got = impl(lambda: make(case["engine"], case["with"]).match(r2))
+            ref = impl(selgen.reference_eval, case["with"], r2)
+            if not got.ok:
+                raise Violation(base + "/generations/raised:" + got.type, "%s over the %s raised %r" % (case["with"], which, got))
+            if ref.ok and bool(ref.value) != bool(got.value):
+                raise Violation(base + "/generations/differs-from-reference", "%s over the %s -> %r, reference helper gives %r"
+                                % (case["with"], which, got.value, ref.value))
+
+
+_REC2 = None
+
+
+def the_record_gen2():
+    global _REC2
+    if _REC2 is None:
+        from flow.record import RecordDescriptor
+
+        d = RecordDescriptor("c08/rec", [(t, n) for t, n, _ in FIELDS] + [("string", m) for m in MISSING])
+        inner = RecordDescriptor("c08/inner", [("string", "a")])("in", _generated=GEN)
+        _REC2 = d(*([inner if v == "<nested>" else ("other" if t == "string" else v) for t, _, v in FIELDS] + ["hello"] * len(MISSING)),
+                  _generated=GEN, _source="src2")
+    return _REC2
 
 
 # ---------------------------------------------------------------------------------------------
